@@ -23,9 +23,9 @@ BUDGET = {'quick': 240, 'thorough': 3000}
 
 def shards(tier):
     if tier == 'quick':
-        return e1.std_shards(tier, with_p=True) + space.w_shards(sizes=(31, 65))
-    return (e1.std_shards(tier, with_p=True, extra_thorough_shapes=((4, 5), (5, 4)))
-            + space.w_shards())
+        return e1.std_shards(tier, with_p=True, with_big=True) + space.w_shards(sizes=(31, 65), kinds=('ordinal',))
+    sh = e1.std_shards(tier, with_p=True, with_big=True, extra_thorough_shapes=((4, 5), (5, 4)))
+    return sh + [s for s in space.w_shards() if s not in sh] + [('W', 'ordinal', 1200)]
 
 
 def check_case(case, ctr):
